@@ -54,7 +54,10 @@ TH.EXTRA.update({
     "comp_step (definition)": z3.ForAll([_E, _V, _n, _fn, _fo, _k, _a, _b], z3.Implies(z3.And(_C[_a], _joined(_E, _fn, _fo, _k, _a, _b)), _C[_b]),
                                         patterns=[MP(_C[_a], TH.tmem(_k, _a), TH.tmem(_k, _b))]),
     "comp_least (definition)": z3.ForAll([_E, _V, _n, _fn, _fo, _S, _m], z3.Implies(z3.And(_S[_n], CLOSEDF(_E, _fn, _fo, _S), _C[_m]), _S[_m]),
-                                         patterns=[MP(_S[_n], _C[_m])]),
+                                         # used where the closedness of S is spoken of: for every set S with a known member the axiom would
+                                         # produce closed(S) and, through closed_intro, three fresh witnesses per set (a matching loop once the
+                                         # query has many sets, e.g. the rows of an adjacency dict)
+                                         patterns=[MP(CLOSEDF(_E, _fn, _fo, _S), _S[_n], _C[_m])]),
     "closed_elim (definition)": z3.ForAll([_E, _fn, _fo, _S, _k, _a, _b],
                                           z3.Implies(z3.And(CLOSEDF(_E, _fn, _fo, _S), _S[_a], _joined(_E, _fn, _fo, _k, _a, _b)), _S[_b]),
                                           patterns=[MP(CLOSEDF(_E, _fn, _fo, _S), _S[_a], TH.tmem(_k, _a), TH.tmem(_k, _b))]),
@@ -93,7 +96,14 @@ def classes_view(eng, p, h, order, size):
     return T.scalar(SSI, CLASSESF(h.fields["_edge_list"].dom, h.fields["_adj"].dom, fn, fo))
 
 
+def closed_view(eng, p, h, order, size, s):
+    """CLOSED(hg, order, size, S): the node set S is closed under sharing a (filtered) hyperedge"""
+    fn, fo = _filter(eng, order, size)
+    return T.sv_bool(CLOSEDF(h.fields["_edge_list"].dom, fn, fo, eng.coerce(s, SI).t))
+
+
 H.LAYOUT.views["COMP"] = comp_view
+H.LAYOUT.views["CLOSED"] = closed_view
 H.LAYOUT.views["CLASSES"] = classes_view
 
 HG = {"hg": "Obj[Hypergraph]"}
@@ -133,6 +143,7 @@ CONTRACTS = [
                  "q_sound": "all(fst(q) in COMP(hg, start, order, size) for q in queue)",
                  "nodes": "all(n in V(hg) for n in visited) and all(fst(q) in V(hg) for q in queue)",
                  "start": "start in visited or any(count(queue, pair(start, d)) >= 1 for d in Int)",
+                 "closed": "implies(len(queue) == 0, CLOSED(hg, order, size, visited))",
                  "frontier": "all(implies(n in visited and k in E(hg) and sel(hg, k, order, size, False) and n in k and m in k, m in visited or any(count(queue, pair(m, d)) >= 1 for d in Int)) "
                              "for n in Node for k in Tuple for m in Node)"}},
              note="breadth-first search returns the reachability class of its start node under the filtered hyperedges"),
